@@ -4,7 +4,7 @@ import ast
 from .. import model, paths, rules_formula as F
 from .common import sweep, decided_split, pre, S_RULES, modes_from
 from ..engine import tt_wellformed
-from ..poly import Poly
+from ..poly import Poly, same as same_poly
 
 
 def _forwarded(prog, rep, qual, callee_suffixes, params=('e', 'r')):
@@ -82,6 +82,29 @@ def check(an, rep, tier):
                     'finished core must have orthonormal rows and the weights '
                     'must travel left; here core %s keeps %s' % (
                         states, bad, [states[k] for k in bad]))
+    # --- P-cap: the rank cap given by the caller is the cap that reaches
+    # every truncated factorisation (whatever numeric type it has)
+    for r in runs:
+        if r.qualname != 'transformation.truncate' or 'r' not in r.variant:
+            continue
+        entry = [a for q_, a, _ in r.I.call_log
+                 if q_ == 'transformation.truncate']
+        cap = entry[-1].get('r') if entry else None
+        if cap is None or cap.p is None:
+            continue
+        for q_, a, _ in r.I.call_log:
+            if q_ not in ('svd.matrix_svd', 'svd.matrix_skeleton'):
+                continue
+            got = a.get('r')
+            ok = got is cap or (got is not None and got.k == 'int' and
+                                got.p is not None and
+                                same_poly(got.p, cap.p))
+            rep.add('P-cap', 'transformation.truncate', 'the cap passed to '
+                    '%s is the caller\'s r (%s)' % (q_, r.tag()),
+                    'ok' if ok else 'violation',
+                    '' if ok else 'the factorisation receives %r instead of '
+                    'the caller\'s cap %r: for this kind of argument the '
+                    'rank limit is silently dropped' % (got, cap))
     F.check_selectors(prog, rep)
     F.check_rank_formula(prog, rep, 'svd.matrix_svd')
     F.check_rank_formula(prog, rep, 'svd.matrix_skeleton')
@@ -166,5 +189,6 @@ def check(an, rep, tier):
     rep.floor('U-cmp', 2, 'threshold comparisons')
     rep.floor('U-cmp-lg', 1, 'threshold scale in the stabilised mode')
     rep.floor('F-rank', 2, 'rank formulas')
+    rep.floor('P-cap', 4, 'cap reaches the factorisations')
     rep.floor('P-forward', 3, 'forwarded caps')
     rep.floor('S-ret', 8, 'results')
